@@ -71,7 +71,7 @@ EXTRA = {
            "evaluated on a three-request history with heap objects (handler loop / one call per request)",
     "C09": "bytes handed to util.write evaluated for a concrete Response; start_response state table",
     "C12": "limits part of the evaluated header-block table (field count, field size incl. continuation lines and CRLF, 0 = unlimited); clamp table with boundary samples; caps evaluated on a buffer that already holds the delimiter (never fire)",
-    "C13": "blocking-mode typestate of a connection socket (TConn.init evaluated for fresh / TLS / kept-alive connections; non-blocking before the poller); keep-alive reaper table (deadline - now) evaluated; deadline sites found by effect",
+    "C13": "blocking-mode typestate of a connection socket (the hand-over on_client_socket_readable -> enqueue_req -> conn.init() -> submit played on a heap object for fresh / TLS / kept-alive connections with every setblocking traced; non-blocking before the poller); keep-alive reaper table (deadline - now) evaluated; deadline sites found by effect",
     "C10": "reload order incl. 'raw_env exports undone before app.reload() snapshots the environment'; every arbiter field derived from the configuration is (re)assigned in setup()",
     "C14": "reexec evaluated: fork iff reexec_pid == 0 and master_pid == 0; the environment handed to exec for both hand-off modes with concrete pids / listener fds, "
            "and the GUNICORN_FD string fed back into start() (writer/reader round trip)",
@@ -129,7 +129,7 @@ def main():
         "checks": checks,
         "not_applicable": [],
         "notes": "All 20 properties are claimed at clause level (level 'other'): each check decides necessary structural conditions of the property and lists the behavioural remainder it does NOT decide "
-                 "in level_claimed.text and in evidence coverage.explanation. Genuine defects found: D1-D7, D9, D11-D20 repaired by one 'fix:' commit each in /repo; D8 and D10 recorded in known_findings.json. "
+                 "in level_claimed.text and in evidence coverage.explanation. Genuine defects found: D1-D7, D9, D11-D21 repaired by one 'fix:' commit each in /repo; D8 and D10 recorded in known_findings.json. "
                  "Exit codes: 0 held / only known findings, 1 VIOLATION, 2 ANALYSIS-ERROR (fail closed).",
     }
     with open(os.path.join(HERE, "MANIFEST.json"), "w") as f:
